@@ -104,7 +104,7 @@ Script(id, pre, post, ev) ==
   [id |-> id, prefix |-> "hs",
    info |-> [family |-> "sdr", insess |-> TRUE, integLen |-> S.integLen, bmcSid |-> S.bmcSid, records |-> Len(pre), event |-> ev.kind, at |-> ev.at],
    steps |-> << [k |-> "rules", rules |-> Rules(pre, post, ev), state |-> [n |-> 0, i |-> 0, phase |-> 0, valid |-> 0, resv |-> 100 + (Len(pre) % 7)]],
-                [k |-> "call", api |-> "RetrieveSDRRepository", label |-> "sdr", target |-> "sess", ctx |-> [ms |-> 20000],
+                [k |-> "call", api |-> "RetrieveSDRRepository", label |-> "sdr", target |-> "sess", ctx |-> [ms |-> 6000],
                  exp |-> [prop |-> "C14", outcome |-> "sdrmapByRule", rule |-> "event",
                           ifFired |-> Snapshot(IF ev.kind = "modify" THEN post ELSE pre), ifNot |-> Snapshot(pre), maxreqs |-> 4 * (6 + 2 * (Len(pre) + Len(post)))]] >>]
 
